@@ -29,7 +29,7 @@ Definition check_C11 (op : bytes) (input impl : arg) : arg :=
     | AL [AZ 2%Z] => AS "inspection of a PGP key panicked"
     | AL [AZ 0%Z; ia] =>
         let i := info_of_arg ia in
-        if Z.eqb kind 0 then verdict (check_description private (arg_nth 1 extra) i)
+        if Z.eqb kind 0 then verdict (check_ref private (arg_nth 1 extra) i)
         else if Z.eqb kind 1 then
           if arg_bool (arg_nth 3 extra) then AL []
           else if existsb (fun n => lists_name i (arg_bytes n)) (arg_list (arg_nth 1 extra))
